@@ -130,6 +130,8 @@ Theorem C19fw_pd_first_mode : forall K, pd_contracts K -> forall c, pd_first_mod
 Proof. exact pd_first_mode_spec. Qed.
 Print Assumptions C19fw_pd_first_mode.
 
+(* (columns are untyped in this model: mean / median of a STRING column with a null raise in pandas and in python_dict.py;
+   such requests are outside the domain of the spec and not modelled, as in Model/MissingValuePyDict.v) *)
 (* plain and grouped, every method; in particular the per-group mode loop (`result.loc[group.index] = ...fillna(mode)`,
    groups visited in ANY order, then the overall fall-back) and the fillna(group).fillna(overall) chains *)
 Theorem C19fw_pd_impute_refines : forall K, pd_contracts K -> forall m c,
